@@ -467,7 +467,7 @@ Proof.
   intros v. unfold op_goexport, with_view, fail.
   destruct (nth_error (views st) v) as [vw|] eqn:Hv; [|constructor].
   destruct (is_det st (v_buf vw)) eqn:Hd.
-  - destruct m; [constructor|]. destruct (_ && _); constructor.
+  - constructor.
   - cbn [snd]. destruct (_ >? 0); [|constructor].
     constructor; [|constructor]. eapply whole_view_ok; eauto using incl_refl.
 Qed.
